@@ -96,8 +96,11 @@ func c14Tables(c *Ctx, in *absint.Interp) {
 	}
 
 	// colour
-	parseC := c.fn("R14-tables", "pkg/board/fen", "", "parseColor")
+	parseC := c.find("pkg/board/fen", "", "parseColor")
 	printC := c.find("pkg/board/fen", "", "printColor")
+	if parseC == nil && (printC == nil || c.find("pkg/board/fen", "", "Decode") == nil || colourSwitchKey(c.find("pkg/board/fen", "", "Decode")) == nil) {
+		parseC = c.fn("R14-tables", "pkg/board/fen", "", "parseColor") // reports the missing anchor
+	}
 	if parseC != nil && printC == nil {
 		// no separate colour printer: the letter is chosen inline in Encode (a constant per colour, selected by
 		// comparisons of the colour parameter) - the second operand of its Sprintf
@@ -132,6 +135,26 @@ func c14Tables(c *Ctx, in *absint.Interp) {
 				}
 				r.Check(ok && got == fmt.Sprintf("%q", col.letter) && parsed[got] == fmt.Sprint(col.v), "R14-tables", "fen side-to-move letter|"+col.name, c.pos(encode.Pos()), "", fmt.Sprintf("printed as %s (decided=%v), standard %q; reader maps it to %s", got, ok, col.letter, parsed[got]))
 			}
+		}
+	}
+	if parseC == nil && printC != nil {
+		// no separate colour reader: the side is chosen inline in Decode by comparisons of the field's text with
+		// constants - followed, for the letter the writer prints, to the value the side-to-move result takes
+		if decode := c.find("pkg/board/fen", "", "Decode"); decode != nil {
+			for _, col := range []struct {
+				name, letter string
+				v            int64
+			}{{"White", "w", white}, {"Black", "b", black}} {
+				outs := in.Run(printC, []absint.Value{absint.MkInt(col.v, printC.Params[0].Type())}, absint.NewState())
+				got := ""
+				if len(outs) == 1 {
+					got = vstrOf(outs[0].Ret)
+				}
+				back, decided := inlineColourRead(decode, col.letter)
+				r.Check(got == fmt.Sprintf("%q", col.letter) && decided && back == col.v, "R14-tables", "fen side-to-move letter|"+col.name, c.pos(printC.Pos()), "", fmt.Sprintf("printed as %s, standard %q; reader maps it to %d (decided=%v)", got, col.letter, back, decided))
+			}
+		} else {
+			parseC = c.fn("R14-tables", "pkg/board/fen", "", "parseColor")
 		}
 	}
 	if parseC != nil && printC != nil {
@@ -379,6 +402,137 @@ func c14InlineCastling(c *Ctx) func(rights int64) (string, bool) {
 	}
 }
 
+// decodeOKReturn: the successful return of fen.Decode (five results, nil error).
+func decodeOKReturn(decode *ssa.Function) *ssa.Return {
+	var okRet *ssa.Return
+	for _, blk := range decode.Blocks {
+		if ret, ok := blk.Instrs[len(blk.Instrs)-1].(*ssa.Return); ok && len(ret.Results) == 5 {
+			if cst, isC := ret.Results[4].(*ssa.Const); isC && cst.IsNil() {
+				okRet = ret
+			}
+		}
+	}
+	return okRet
+}
+
+// colourSwitchKey: when Decode chooses the side to move inline, the text value its comparisons test - the side
+// result is a phi of constants, and the tests that select among them compare one value with string constants.
+func colourSwitchKey(decode *ssa.Function) ssa.Value {
+	okRet := decodeOKReturn(decode)
+	if okRet == nil {
+		return nil
+	}
+	phi, ok := stripConv(returnedValue(okRet, 1)).(*ssa.Phi)
+	if !ok {
+		return nil
+	}
+	for _, e := range phi.Edges {
+		if _, isC := stripConv(e).(*ssa.Const); !isC {
+			return nil
+		}
+	}
+	var key ssa.Value
+	for _, b := range decode.Blocks {
+		if !b.Dominates(phi.Block()) || len(b.Instrs) == 0 {
+			continue
+		}
+		ifi, ok := b.Instrs[len(b.Instrs)-1].(*ssa.If)
+		if !ok {
+			continue
+		}
+		bo, ok := ifi.Cond.(*ssa.BinOp)
+		if !ok || bo.Op != token.EQL {
+			continue
+		}
+		if _, isS := constString(bo.Y); isS {
+			if _, alsoS := constString(bo.X); !alsoS && reachesWithin(b, phi.Block(), 8) {
+				if key == nil {
+					key = bo.X
+				} else if key != bo.X {
+					continue
+				}
+			}
+		}
+	}
+	return key
+}
+
+func reachesWithin(from, to *ssa.BasicBlock, depth int) bool {
+	if from == to {
+		return true
+	}
+	if depth == 0 {
+		return false
+	}
+	for _, s := range from.Succs {
+		if reachesWithin(s, to, depth-1) {
+			return true
+		}
+	}
+	return false
+}
+
+// inlineColourRead follows the chain of comparisons 'key == "<const>"' from the first of them, with the key's text
+// fixed to letter, down to the block that joins the cases, and reads the side constant selected there.
+func inlineColourRead(decode *ssa.Function, letter string) (int64, bool) {
+	key := colourSwitchKey(decode)
+	okRet := decodeOKReturn(decode)
+	if key == nil || okRet == nil {
+		return 0, false
+	}
+	phi := stripConv(returnedValue(okRet, 1)).(*ssa.Phi)
+	isTest := func(b *ssa.BasicBlock) (string, bool) {
+		if len(b.Instrs) == 0 {
+			return "", false
+		}
+		ifi, ok := b.Instrs[len(b.Instrs)-1].(*ssa.If)
+		if !ok {
+			return "", false
+		}
+		bo, ok := ifi.Cond.(*ssa.BinOp)
+		if !ok || bo.Op != token.EQL || bo.X != key {
+			return "", false
+		}
+		return constString(bo.Y)
+	}
+	// the first test: the one that dominates all others
+	var cur *ssa.BasicBlock
+	for _, b := range decode.Blocks {
+		if _, ok := isTest(b); ok && (cur == nil || b.Dominates(cur)) {
+			cur = b
+		}
+	}
+	if cur == nil {
+		return 0, false
+	}
+	var prev *ssa.BasicBlock
+	for steps := 0; steps < 32; steps++ {
+		if cur == phi.Block() {
+			for i, p := range cur.Preds {
+				if p == prev {
+					return constInt(stripConv(phi.Edges[i]))
+				}
+			}
+			return 0, false
+		}
+		if s, ok := isTest(cur); ok {
+			prev = cur
+			if s == letter {
+				cur = cur.Succs[0]
+			} else {
+				cur = cur.Succs[1]
+			}
+			continue
+		}
+		// a case body: nothing but a jump to the join
+		if len(cur.Succs) != 1 {
+			return 0, false // a return: the letter is rejected
+		}
+		prev, cur = cur, cur.Succs[0]
+	}
+	return 0, false
+}
+
 func c14Wiring(c *Ctx) {
 	r := c.R
 	decode := c.fn("R14-wiring", "pkg/board/fen", "", "Decode")
@@ -468,6 +622,15 @@ func c14Wiring(c *Ctx) {
 		var bad []string
 		for _, w := range ws {
 			pv := c.provenance(decode, w.v)
+			if w.what == "side to move" && c.find("pkg/board/fen", "", "parseColor") == nil {
+				// chosen inline: the result depends on the field through the tests that select the constant (the
+				// letters themselves are decided by R14-tables) - the tested text must be the field's
+				if key := colourSwitchKey(decode); key != nil {
+					if kp := c.provenance(decode, key); kp.onlyField(w.field) {
+						continue
+					}
+				}
+			}
 			if !pv.onlyField(w.field) || !pv.via(w.via) {
 				bad = append(bad, fmt.Sprintf("%s: expected field %d through %s, got %s", w.what, w.field+1, w.via, pv))
 			}
